@@ -112,7 +112,10 @@ CHECKS["C14"] = dict(
     level_text=("fault enumeration at the writer boundary: every outcome matrix {ok,error,short}^(destinations x events) for <=3 destinations x <=3 (quick) / "
                 "<=4 (thorough) events is scripted into recording fault-injecting destinations (with and without FilteredLevelWriter, plain io.Writer vs "
                 "LevelWriter), plus random larger configurations; per-destination call logs and the ErrorHandler log are compared with the model "
-                "'first failing destination wins, exactly one handler call per failing event, later events unaffected'."),
+                "'first failing destination wins, exactly one handler call per failing event, later events unaffected'. An error comes with 0, all or half of the bytes; a short write accepts len-1, 0, 1 or len/2 bytes; "
+                "destinations also sit behind SyncWriter, a nested MultiLevelWriter or both; events are finalized with Msg / Msgf / MsgFunc, carry a "
+                "hook-added field in a quarter of the cases and a 600-byte (random cases: also 70 000-byte) field in some; the multi writer is also "
+                "reached through its plain Write method (without level filters: what a filter does without a level is not specified)."),
     technique="runtime monitoring with injected writer faults: exhaustive outcome matrices, per-destination and ErrorHandler logs vs model",
     stages=lambda tier: [dict(variant="vh", cmd="c14", shards=16, timeout=3000)],
     rule=("one case = one (destination count, event count, outcome matrix, filter levels, writer kinds, event levels) configuration; all are non-trivial; "
